@@ -1,6 +1,167 @@
-(* C14 — tours and the vehicle registry stay well-formed under any operation sequence. *)
+(* C14 — Tours and the vehicle registry stay well-formed under any operation sequence.
+   Only the property theorems, each closed by `exact`.  Model: Model/TourReg.v (tied to the Rust code by the
+   correspondence run of every check), proofs: Proofs/TourRegP.v.
+
+   Clauses of the statement and where they are proved:
+     (a) depot ends stay in place ............ C14_tour_wf_history (under the index guard of insert_at; insert_last, remove,
+                                                remove_activity_at need no guard: C14_tour_wf_history_no_insert_at);
+                                                the unguarded statement is false for the code as written:
+                                                C14_tour_ends_unguarded_refuted (finding C14-F1/F2); strongest unguarded
+                                                statement: C14_tour_weak_history_partial
+     (b) job set = jobs of the activities .... C14_tour_weak_history_partial (EVERY history), C14_tour_representation
+     (c) consistent counts ................... C14_tour_counts
+     (d) legs enumeration .................... C14_tour_legs
+     (e) registry offers iff not in use,
+         never hands out twice ............... C14_registry_use_spec, C14_registry_free_spec, C14_registry_get_route_spec,
+                                                C14_registry_slice_spec, C14_registry_history, C14_registry_next_*
+     (f) deep copies independent ............. C14_tour_slots_frame, C14_tour_copy_equal, C14_registry_slots_frame,
+                                                C14_registry_copy_equal (functional model: holds by construction; the
+                                                Rust-level content — no shared mutable memory — is checked by the harness) *)
 From VRP Require Import Base.Tac Model.TourReg Proofs.TourRegP.
 #[local] Open Scope nat_scope.
 
-Theorem C14_tour_new_start : forall c, hd_error (t_acts (tour_new c)) = Some start_act.
-Proof. exact tour_new_start. Qed.
+(* ------------------------------------------------------------------ tours *)
+
+(* (a)+(b): every guarded history from Tour::new keeps start first, end last (closed tours), only job activities in
+   between, and jobs() duplicate-free and equal to the jobs of the activities *)
+Theorem C14_tour_wf_history : forall (c : bool) (ops : list top) (t : tour),
+  guarded (tour_new c) ops -> trun (tour_new c) ops = Some t ->
+  ((exists mid, t_acts t = start_act :: mid ++ (if t_closed t then [end_act] else []) /\
+                Forall (fun a => a_job a <> None) mid) /\
+   (NoDup (t_jobs t) /\ forall j, In j (t_jobs t) <-> exists a, In a (t_acts t) /\ a_job a = Some j)) /\
+  t_closed t = c.
+Proof. exact P_C14_tour_wf_history. Qed.
+
+(* histories of insert_last / remove / remove_activity_at alone need no guard at all *)
+Theorem C14_tour_wf_history_no_insert_at : forall (c : bool) (ops : list top) (t : tour),
+  forallb no_insert_at ops = true -> trun (tour_new c) ops = Some t -> WFTour t /\ t_closed t = c.
+Proof. exact P_C14_tour_wf_history_no_insert_at. Qed.
+
+(* one step: well-formedness is preserved and the step is the abstract operation on the list of job activities
+   (refinement to "list of activities between fixed ends"); results (removed?/job id) agree *)
+Theorem C14_tour_step_refines : forall (t : tour) (o : top),
+  WFTour t -> in_guard t o ->
+  abs_res (tstep t o) = spec_step (abs t) o /\
+  forall t' r, tstep t o = Some (t', r) -> WFTour t' /\ t_closed t' = t_closed t.
+Proof. exact P_C14_tour_step_refines. Qed.
+
+(* the concrete tour is determined by its abstract value *)
+Theorem C14_tour_representation : forall t, WFTour t ->
+  t_acts t = start_act :: abs t ++ ends (t_closed t) /\ Forall (fun a => hasjob a = true) (abs t) /\
+  NoDup (t_jobs t) /\ (forall j, In j (t_jobs t) <-> exists a, In a (abs t) /\ a_job a = Some j).
+Proof. exact wftour_repr. Qed.
+
+(* (a) full statement without the guard is FALSE for the code as written: insert_at(_, 0) displaces the start,
+   insert_at(_, total) on a closed tour displaces the end; neither panics *)
+Theorem C14_tour_ends_unguarded_refuted :
+  (exists ops t, trun (tour_new true) ops = Some t /\ hd_error (t_acts t) <> Some start_act) /\
+  (exists ops t, trun (tour_new true) ops = Some t /\ last (t_acts t) start_act <> end_act).
+Proof. exact (conj ends_unguarded_refuted end_unguarded_refuted). Qed.
+
+(* strongest statement for EVERY history (no guard): the depots are never lost, duplicated or reordered
+   (the activities without a job are exactly start [, end]), and the job set equals the jobs of the activities.
+   Missing w.r.t. the full clause (a): the position of the depots (see the refutation above). *)
+Theorem C14_tour_weak_history_partial : forall (c : bool) (ops : list top) (t : tour),
+  trun (tour_new c) ops = Some t ->
+  (filter nojob (t_acts t) = start_act :: ends (t_closed t) /\
+   (NoDup (t_jobs t) /\ forall j, In j (t_jobs t) <-> exists a, In a (t_acts t) /\ a_job a = Some j)) /\
+  t_closed t = c.
+Proof. exact wfweak_history. Qed.
+
+(* (c) counts, for every tour reachable by any history (WFweak) *)
+Theorem C14_tour_counts : forall t, WFweak t ->
+  total t = job_activity_count t + 1 + (if t_closed t then 1 else 0) /\
+  job_activity_count t = length (filter hasjob (t_acts t)) /\
+  job_count t <= job_activity_count t /\
+  (has_jobs t = true <-> job_activity_count t <> 0).
+Proof. exact wfweak_counts. Qed.
+
+(* (d) legs(): leg i is (activity i, activity i+1) with index i; an open tour has the extra last leg holding only its
+   last activity (also the single leg of an empty open tour) *)
+Theorem C14_tour_legs : forall t, WFweak t ->
+  length (legs t) = total t - (if t_closed t then 1 else 0) /\
+  forall i, i < total t - (if t_closed t then 1 else 0) ->
+            nth_error (legs t) i = Some (firstn 2 (skipn i (t_acts t)), i).
+Proof. exact P_C14_tour_legs. Qed.
+
+(* (f) an operation on slot k leaves every other slot untouched; a copy equals its original *)
+Theorem C14_tour_slots_frame : forall ss o ss' r k,
+  sstep ss o = Some (ss', r, k) -> forall k', k' <> k -> k' < length ss -> nth_error ss' k' = nth_error ss k'.
+Proof. exact sstep_frame. Qed.
+Theorem C14_tour_copy_equal : forall ss k mode ss' r n,
+  sstep ss (SCopy k mode) = Some (ss', r, n) ->
+  n = length ss /\ exists s s', nth_error ss k = Some s /\ nth_error ss' n = Some s' /\ s_tour s' = s_tour s /\
+                                (mode = 2 -> s_state s' = s_state s).
+Proof. exact sstep_copy. Qed.
+Theorem C14_tour_slots_wf : forall ss o ss' r k,
+  Forall (fun s => WFweak (s_tour s)) ss -> sstep ss o = Some (ss', r, k) -> Forall (fun s => WFweak (s_tour s)) ss'.
+Proof. exact sstep_wf. Qed.
+
+(* ------------------------------------------------------------------ registry *)
+
+(* Registry::new: well-formed, every fleet actor is offered *)
+Theorem C14_registry_new : forall gs,
+  WFReg (reg_new gs) /\ forall a, In a (available (reg_new gs)) <-> a < length gs.
+Proof. exact P_C14_registry_new. Qed.
+
+(* (e) refinement to "finite set of free actors": use_actor succeeds exactly for an offered actor and removes it *)
+Theorem C14_registry_use_spec : forall r a r' b,
+  WFReg r -> use_actor r a = (r', b) ->
+  WFReg r' /\ (b = true <-> In a (available r)) /\
+  (forall x, In x (available r') <-> In x (available r) /\ (b = true -> x <> a)) /\ r_all r' = r_all r.
+Proof. exact P_C14_registry_use_spec. Qed.
+
+(* free_actor succeeds exactly for a known actor that is not offered, and makes it offered again *)
+Theorem C14_registry_free_spec : forall r a r' b,
+  WFReg r -> free_actor r a = (r', b) ->
+  WFReg r' /\ (b = true <-> In a (r_all r) /\ ~ In a (available r)) /\
+  (forall x, In x (available r') <-> In x (available r) \/ (b = true /\ x = a)) /\ r_all r' = r_all r.
+Proof. exact P_C14_registry_free_spec. Qed.
+
+(* RegistryContext::get_route hands a route out exactly when use_actor succeeds *)
+Theorem C14_registry_get_route_spec : forall c a c' b,
+  WFctx c -> get_route c a = (c', b) -> exists r', use_actor (c_reg c) a = (r', b) /\ c' = mkRctx r' (c_idx c).
+Proof. exact get_route_spec. Qed.
+
+(* deep_slice keeps exactly the selected actors, offered ones stay offered *)
+Theorem C14_registry_slice_spec : forall r keep,
+  WFReg r ->
+  WFReg (deep_slice r keep) /\
+  (forall x, In x (available (deep_slice r keep)) <-> In x (available r) /\ keep x = true) /\
+  r_all (deep_slice r keep) = filter keep (r_all r).
+Proof. exact P_C14_registry_slice_spec. Qed.
+
+(* (e) every history of use/free/get_route/next/deep_slice from RegistryContext::new: the registry stays well-formed,
+   successful acquisitions and releases of any actor alternate (never handed out twice), and an actor is offered
+   exactly when it belongs to the registry and is not in use *)
+Theorem C14_registry_history : forall gs hs c tr a,
+  hrun (rctx_new gs) hs = (c, tr) ->
+  WFReg (c_reg c) /\ alternating a false tr /\
+  (In a (available (c_reg c)) <-> In a (r_all (c_reg c)) /\ held_after a false tr = false).
+Proof. exact registry_history. Qed.
+
+(* next(): whatever the draws, only offered actors are returned; with draws in range one per non-empty group *)
+Theorem C14_registry_next_sound : forall r picks x, In x (next_with picks (r_avail r)) -> In x (available r).
+Proof. exact P_C14_registry_next_sound. Qed.
+Theorem C14_registry_next_complete : forall r picks,
+  picks_ok picks (r_avail r) -> length (next_with picks (r_avail r)) = nonempty_groups (r_avail r).
+Proof. exact P_C14_registry_next_complete. Qed.
+
+(* (f) registry slots *)
+Theorem C14_registry_slots_frame : forall cs o cs' r k,
+  rsstep cs o = Some (cs', r, k) -> forall k', k' <> k -> k' < length cs -> nth_error cs' k' = nth_error cs k'.
+Proof. exact rsstep_frame. Qed.
+Theorem C14_registry_copy_equal : forall cs k cs' r n,
+  rsstep cs (RSCopy k) = Some (cs', r, n) -> n = length cs /\ nth_error cs' n = nth_error cs k /\ nth_error cs k <> None.
+Proof. exact rsstep_copy. Qed.
+Theorem C14_registry_slots_wf : forall cs o cs' r k, Forall WFctx cs -> rsstep cs o = Some (cs', r, k) -> Forall WFctx cs'.
+Proof. exact rsstep_wf. Qed.
+
+(* ------------------------------------------------------------------ non-vacuity *)
+Theorem C14_nonvacuous_tour :
+  exists ops t, guarded (tour_new true) ops /\ trun (tour_new true) ops = Some t /\ length (abs t) = 2 /\ job_count t = 1.
+Proof. exact P_C14_nonvacuous_tour. Qed.
+Theorem C14_nonvacuous_registry :
+  exists gs hs c tr, hrun (rctx_new gs) hs = (c, tr) /\ held_after 1 false tr = true /\ ~ In 1 (available (c_reg c)) /\
+                     In 0 (available (c_reg c)).
+Proof. exact P_C14_nonvacuous_registry. Qed.
